@@ -74,3 +74,42 @@ package rle
 //@   modifies r, r.out, HA(r.out.d), HA(r.valBuf)
 //@ loop (*RLE).Bytes#1
 //@   invariant r.out == old(r.out) && r.valBuf == old(r.valBuf) && r.out.d == old(r.out.d) && 0 <= i
+
+// ---- decoder (operates on in-memory readers only)
+
+//@ func (*RLE).Read
+//@   requires r != nil && dyn(in) == typeid("*bytes.Buffer") && payload(in) != 0
+//@   modifies obj(in)
+//@   ensures freshOrNil(res0)
+//@ loop (*RLE).Read#1
+//@   invariant freshOrNil(out) && rr != nil && freshsince(rr)
+
+//@ func readRLEBitPacked
+//@   requires dyn(r) == typeid("*bytes.Reader") && payload(r) != 0
+//@   modifies obj(r)
+//@   ensures freshOrNil(res0)
+//@ loop readRLEBitPacked#1
+//@   invariant freshOrNil(out) && freshsince(rawBytes)
+
+//@ func readRLE
+//@   requires dyn(r) == typeid("*bytes.Reader") && payload(r) != 0
+//@   modifies obj(r)
+//@   ensures freshOrNil(res0)
+//@ loop readRLE#1
+//@   invariant freshsince(out)
+
+//@ func readIntLittleEndianPaddedOnBitWidth
+//@   requires dyn(in) == typeid("*bytes.Reader") && payload(in) != 0
+//@   modifies obj(in)
+//@ func readIntLittleEndianOnOneByte
+//@   requires dyn(in) == typeid("*bytes.Reader") && payload(in) != 0
+//@   modifies obj(in)
+//@ func readIntLittleEndianOnTwoBytes
+//@   requires dyn(in) == typeid("*bytes.Reader") && payload(in) != 0
+//@   modifies obj(in)
+
+//@ func readLEB128
+//@   requires dyn(r) == typeid("*bytes.Reader") && payload(r) != 0
+//@   modifies obj(r)
+//@ loop readLEB128#1
+//@   invariant freshsince(b)
